@@ -315,7 +315,7 @@ func (self *linkedPairs) Get(key string) (*Pair, int) {
 		i, ok := self.index[caching.StrHash(key)]
 		if ok {
 			n := self.At(i)
-			if n.Key == key {
+			if n != nil && n.Key == key {
 				return n, i
 			}
 			// hash conflicts
